@@ -54,7 +54,13 @@ class _RecBuffer(io.RawIOBase):
         return len(b)
 
     def flush(self):
-        pass
+        # a flush may block (full pipe, slow terminal): ZTR_SLOW_FLUSH_MS
+        # makes every n-th one take that long
+        ms = os.environ.get('ZTR_SLOW_FLUSH_MS')
+        if ms:
+            self.rec._flushes = getattr(self.rec, '_flushes', 0) + 1
+            if self.rec._flushes % 3 == 0:
+                time.sleep(float(ms) / 1000.0)
 
 
 class Recorder(io.TextIOBase):
